@@ -52,6 +52,17 @@ fn sig_s<'a>(v: &'a Violation, k: &str) -> Option<&'a str> {
 /// signature predicates, by finding id
 pub fn predicate(id: &str, v: &Violation) -> bool {
     match id {
+        // A stand-alone Locomotive never compares the request with its own published tractive limit:
+        // acceptance is decided by the engine / battery checks (1e-3 tolerance) while the published limit
+        // was derived through the inverse-interpolated efficiency tables, so a request somewhat above the
+        // published limit can be accepted although every component stayed inside its own limit.
+        "C09-standalone-loco-limit-not-enforced" => {
+            v.monitor == "limits"
+                && (v.clause == "loco.pwr_out<=published_max" || v.clause == "over-limit request is rejected")
+                && sig_bool(v, "standalone") == Some(true)
+                && sig_bool(v, "component_limits_respected") == Some(true)
+                && sig_bool(v, "negative") != Some(true)
+        }
         _ => {
             let _ = (sig_bool(v, ""),);
             false
